@@ -120,11 +120,12 @@ Definition write (s : sst) (p : list Z) : sst * Z :=
     else if (sPos r =? -1) && (ePos r =? -1) then (mkS b (wo s) false (send s) (c0s s) (c0e s) (c1s s) (c1e s), 0)
     else
       let e := zlen b in
-      let a0 := sPos r + sLen r / 2 in
-      let a1 := sPos r + sLen r in
+      (* cuts[0] is only set when a host name was found *)
+      let '(a0, a1) := if sPos r =? -1 then (c0s s, c0e s) else (sPos r + sLen r / 2, sPos r + sLen r) in
       let '(b0, b1) := if 0 <? ePos r then (ePos r + 1, Z.min (ePos r + 1 + 16) e) else (c1s s, c1e s) in
-      (* slices.SortFunc on two elements: one comparison cmp(cuts[1], cuts[0]) < 0 *)
-      if negb (b0 =? Inv) && negb (a0 <? b0) then (mkS b (wo s) true e b0 b1 a0 a1, 0)
+      (* slices.SortFunc on two elements: one comparison cmp(cuts[1], cuts[0]) < 0, with the
+         comparator that puts invalid cuts last *)
+      if negb (b0 =? Inv) && ((a0 =? Inv) || negb (a0 <? b0)) then (mkS b (wo s) true e b0 b1 a0 a1, 0)
       else (mkS b (wo s) true e a0 a1 b0 b1, 0).
 
 (* wire.CryptoFrame.MaxDataLen *)
@@ -145,11 +146,17 @@ Definition base_pop (s : sst) (maxLen : Z) : res (sst * option (Z * list Z)) :=
   else Ok (mkS (drop n (buf s)) (wo s + n) (scr s) (send s) (c0s s) (c0e s) (c1s s) (c1e s),
            Some (wo s, take n (buf s))).
 
-(* the part of phase 2 that sends from one cut; which = false: cuts[0], true: cuts[1].
-   other_valid: whether a later cut is still valid (foundCuts stays true) *)
 Definition finish (s : sst) : sst :=
   mkS (drop (send s) (buf s)) (wo s) false Inv (c0s s) (c0e s) (c1s s) (c1e s).
 
+(* phase 2 drops a cut that is valid but empty (start >= end) when it meets it *)
+Definition drop_empty0 (s : sst) : sst :=
+  if negb (c0s s =? Inv) && (c0e s <=? c0s s) then mkS (buf s) (wo s) (scr s) (send s) Inv Inv (c1s s) (c1e s) else s.
+Definition drop_empty1 (s : sst) : sst :=
+  if negb (c1s s =? Inv) && (c1e s <=? c1s s) then mkS (buf s) (wo s) (scr s) (send s) (c0s s) (c0e s) Inv Inv else s.
+
+(* the part of phase 2 that sends from one (valid, non-empty) cut; which = false: cuts[0],
+   true: cuts[1] (then cuts[0] is invalid) *)
 Definition pop_cut (s : sst) (maxLen : Z) (which : bool) : res (sst * option (Z * list Z)) :=
   let cs := if which then c1s s else c0s s in
   let ce := if which then c1e s else c0e s in
@@ -161,19 +168,23 @@ Definition pop_cut (s : sst) (maxLen : Z) (which : bool) : res (sst * option (Z 
     let done := (cs + n =? ce) in
     let ns := if done then Inv else cs + n in
     let ne := if done then Inv else ce in
+    (* after cuts[0] the loop still looks at cuts[1]: an empty one is dropped, a non-empty one
+       keeps foundCuts true *)
     let s' := if which then mkS (buf s) (wo s) (scr s) (send s) (c0s s) (c0e s) ns ne
-              else mkS (buf s) (wo s) (scr s) (send s) ns ne (c1s s) (c1e s) in
-    (* foundCuts: this cut not exhausted, or (for cuts[0]) cuts[1] still valid *)
-    let more := negb done || (negb which && negb (c1s s =? Inv)) in
+              else drop_empty1 (mkS (buf s) (wo s) (scr s) (send s) ns ne (c1s s) (c1e s)) in
+    let more := negb done || (negb which && negb (c1s s' =? Inv)) in
     Ok (if more then s' else finish s', Some (cs, data)).
 
 (* initialCryptoStream.PopCryptoFrame *)
 Definition pop (s : sst) (maxLen : Z) : res (sst * option (Z * list Z)) :=
   if negb (scr s) then base_pop s maxLen
   else if wo s =? send s then
-    if negb (c0s s =? Inv) then pop_cut s maxLen false
-    else if negb (c1s s =? Inv) then pop_cut s maxLen true
-    else Ok (finish s, None)
+    let s0 := drop_empty0 s in
+    if negb (c0s s0 =? Inv) then pop_cut s0 maxLen false
+    else
+      let s1 := drop_empty1 s0 in
+      if negb (c1s s1 =? Inv) then pop_cut s1 maxLen true
+      else base_pop (finish s1) maxLen (* only empty cuts were left: f == nil *)
   else
     let '(ns, ne) :=
       if negb (c0s s =? Inv) && (wo s <? c0s s) then (c0s s, c0e s)
